@@ -39,7 +39,7 @@ func gen(t *rapid.T) duo.Case {
 		c.Split = append(c.Split, p)
 	}
 	n := rapid.IntRange(2, 3).Draw(t, "nreqs")
-	keyed := rapid.IntRange(0, 3).Draw(t, "keyed") == 0
+	keyed := rapid.IntRange(0, 3).Draw(t, "keyed") // 0: every request has a dedup key (1 or 2); 1: some have, some use the default scope; else none
 	for i := 0; i < n; i++ {
 		r := duo.ReqSpec{Prio: rapid.IntRange(0, 2).Draw(t, "prio")}
 		if rapid.IntRange(0, 3).Draw(t, "subroot") == 0 {
@@ -54,8 +54,14 @@ func gen(t *rapid.T) duo.Case {
 		if rapid.IntRange(0, 2).Draw(t, "haswg") == 0 {
 			r.ReqWGateAt = rapid.IntRange(1, 5).Draw(t, "wg")
 		}
-		if keyed {
+		switch keyed {
+		case 0:
 			r.DedupKey = rapid.IntRange(1, 2).Draw(t, "key")
+		case 1:
+			r.DedupKey = rapid.IntRange(0, 2).Draw(t, "key")
+		}
+		if r.DedupKey > 0 && rapid.IntRange(0, 2).Draw(t, "hasdns") == 0 {
+			r.DNS = rapid.SliceOfN(rapid.IntRange(0, len(d.Blocks)-1), 1, 4).Draw(t, "dns")
 		}
 		c.Reqs = append(c.Reqs, r)
 	}
@@ -101,13 +107,23 @@ func judge(c duo.Case) *pbt.Verdict {
 	if cross {
 		v.Label("cross-request-dedup-happened")
 	}
-	keyed := c.Reqs[0].DedupKey > 0
+	keyed, unkeyed := false, false
+	for _, r := range c.Reqs {
+		if r.DedupKey > 0 {
+			keyed = true
+		} else {
+			unkeyed = true
+		}
+	}
 	if keyed {
 		v.Label("dedup-by-key-with-own-stores")
 	}
+	if keyed && unkeyed {
+		v.Label("keyed-and-default-scope-requests-together")
+	}
 	v.NonTrivial = cross
 	for i, spec := range c.Reqs {
-		alone := duo.Run(outerT, duo.Case{DAG: c.DAG, Sel: c.Sel, Split: c.Split, Reqs: []duo.ReqSpec{{Root: spec.Root, DedupKey: spec.DedupKey}}, Ops: []duo.Op{{K: "start"}}})
+		alone := duo.Run(outerT, duo.Case{DAG: c.DAG, Sel: c.Sel, Split: c.Split, Reqs: []duo.ReqSpec{{Root: spec.Root, DedupKey: spec.DedupKey, DNS: spec.DNS}}, Ops: []duo.Op{{K: "start"}}})
 		if alone.Panic != "" {
 			return v.Failf("panic in the run-alone reference: %s", alone.Panic)
 		}
